@@ -1628,20 +1628,40 @@ def c01e(F, R):
     table = _math_op_table(F)
     gp = F.method(PNODE, "gen_reg_value", trait="HasGenValueInfo")
     m = self_match(F, gp, PNODE)
-    arms = dict(arm_table(m))
     IAT = "riscv_analysis::parser::inst::IArithType"
     AT = "riscv_analysis::parser::inst::ArithType"
     x0 = REG + "::X0"
+
+    def arm_of(name):
+        """the arm of `name` that makes the claim (a variant may have a guarded arm followed by others)"""
+        cands = [a for v, a in arm_table(m) if v == name]
+        if not cands:
+            raise Anchor(f"gen_reg_value has no {name} arm")
+        claiming = [a for a in cands if _claim(a["body"]) is not None]
+        if len(claiming) > 1:
+            R.bad(f"{name}|shape", f"UNEXTRACTABLE: {len(claiming)} arms of {name} claim a constant", loc(claiming[1]))
+        return (claiming or cands)[0]
+
+    def silent_unless(name, variants, cases, what):
+        """whatever the spelling of the condition (an `if`, a guard on the arm, `cond.then(..)`), the node claims nothing when a source is a real register"""
+        for env in cases:
+            for v in variants:
+                try:
+                    r = eval_prop_full(F, "gen_reg_value", name, dict(env, inst=v, rd="X5", imm=7), trait="HasGenValueInfo")
+                except Unx as ex:
+                    return f"UNEXTRACTABLE: gen_reg_value for {name} {v} with {env} ({ex})"
+                if r != "none" and "Constant" in repr(r):
+                    srcs = ", ".join(f"{k_} = {x_.lower()}" for k_, x_ in sorted(env.items()))
+                    return f"`{v.lower()}` with {srcs} is claimed to produce a constant ({r[1] if isinstance(r, tuple) else r}): {what}"
+        return None
+    from .nodeprops import eval_prop_full, Unx
     # ---- I-type: `op rd, x0, imm`
-    ia = arms.get("IArith")
-    if ia is None:
-        raise Anchor("gen_reg_value has no IArith arm")
-    guard = [i for i in walk(ia["body"], pats=False) if i.get("k") == "If"]
-    g_ok = guard and any(f.get("k") == "Field" and f["name"] == "rs1" for f in walk(guard[0]["cond"], pats=False)) and any(p.get("res") == x0 for p in walk(guard[0]["cond"], pats=False) if p.get("k") == "Path")
-    if g_ok:
-        R.ok("IArith|guard", detail="I-type constants are generated only under rs1 == x0")
+    ia = arm_of("IArith")
+    why = silent_unless("IArith", F.variants(IAT), [{"rs1": "X6"}], "the value of rs1 is part of the result")
+    if why is None:
+        R.ok("IArith|guard", detail="I-type constants are generated only under rs1 == x0 (evaluated with rs1 = x6 for every I-type instruction: no claim)")
     else:
-        R.bad("IArith|guard", "I-type constant generation is not guarded by `rs1 == x0`", loc(ia))
+        R.bad("IArith|guard", "I-type constant generation is not guarded by `rs1 == x0`: " + why, loc(ia))
     inner = None
     for mt in find_matches(ia["body"]):
         vs = [v for a in mt["arms"] for k, v in pat_variants(a["pat"]) if k == "path"]
@@ -1673,16 +1693,12 @@ def c01e(F, R):
             else:
                 R.bad(f"IArith|{v}", f"`{v.lower()} rd, x0, imm` is claimed to produce {c}, but {op}(0, imm) is {'imm' if want == 'y' else ('not a constant function of imm alone' if want is None else want)}", loc(arm))
     # ---- R-type: `op rd, x0, x0`
-    ar = arms.get("Arith")
-    if ar is None:
-        raise Anchor("gen_reg_value has no Arith arm")
-    guard = [i for i in walk(ar["body"], pats=False) if i.get("k") == "If"]
-    flds = {f["name"] for f in walk(guard[0]["cond"], pats=False) if f.get("k") == "Field"} if guard else set()
-    nx0 = sum(1 for p in walk(guard[0]["cond"], pats=False) if p.get("k") == "Path" and p.get("res") == x0) if guard else 0
-    if {"rs1", "rs2"} <= flds and nx0 >= 2 and all(b["op"] in ("And", "Eq") for b in walk(guard[0]["cond"], pats=False) if b.get("k") == "Binary"):
-        R.ok("Arith|guard", detail="R-type constants are generated only under rs1 == x0 && rs2 == x0")
+    ar = arm_of("Arith")
+    why = silent_unless("Arith", F.variants(AT), [{"rs1": "X6", "rs2": "X0"}, {"rs1": "X0", "rs2": "X6"}, {"rs1": "X6", "rs2": "X7"}], "the sources are part of the result")
+    if why is None:
+        R.ok("Arith|guard", detail="R-type constants are generated only under rs1 == x0 && rs2 == x0 (evaluated with a real register in either / both source positions: no claim)")
     else:
-        R.bad("Arith|guard", "R-type constant generation is not guarded by `rs1 == x0 && rs2 == x0`", loc(ar))
+        R.bad("Arith|guard", "R-type constant generation is not guarded by `rs1 == x0 && rs2 == x0`: " + why, loc(ar))
     # per-variant claims: an inner match over ArithType, or one claim for all variants
     inner = None
     for mt in find_matches(ar["body"]):
@@ -1700,8 +1716,8 @@ def c01e(F, R):
         for v in F.variants(AT):
             per.setdefault(v, default)
     else:
-        c = _claim(guard[0]["then"]) if guard else "?"
-        per = {v: c for v in F.variants(AT)}
+        c = _claim(ar["body"])
+        per = {v: c if c is not None else "?" for v in F.variants(AT)}
     for v in F.variants(AT):
         c = per[v]
         op = _op_of(v, table)
